@@ -82,7 +82,7 @@ theorem stepA_crash (o v : Nat) (s : State) (w : String) : StepA o v s (s.crash 
 
 theorem stepA_count (cfg : Cfg) (o v : Nat) (s : State) (t : Int) : StepA o v s (countMsg cfg s t) := by
   unfold countMsg; split
-  · exact StepA.refl o v s
+  · exact stepA_same rfl rfl rfl
   · exact stepA_same rfl rfl rfl
 
 theorem stepA_filter (o v : Nat) (s : State) (u : Nat) : StepA o v s { s with mods := s.mods.filter (·.uid != u) } := by
